@@ -124,9 +124,14 @@ def build_router(real: Real, cfg):
     pt = real.pt
     CC = pt.CallConfig
     kw = {}
+    shared = {}
     for oc_s, ent in cfg["bare"].items():
         cc, kind, aid = ent
-        act = mk_action(real, kind, f"B{aid}") if kind is not None else None
+        if kind is not None and cfg.get("share_actions") and (kind, aid) in shared:
+            act = shared[(kind, aid)]      # ONE action object registered for several OnCompletion values
+        else:
+            act = mk_action(real, kind, f"B{aid}") if kind is not None else None
+            shared[(kind, aid)] = act
         kw[OC_NAMES[int(oc_s)]] = pt.OnCompleteAction(action=act, call_config=CC(cc))
     bare = pt.BareCallActions(**kw) if (kw or cfg.get("bare_object", True)) else None
     clear = None
@@ -507,7 +512,16 @@ def gen_cfg(r, max_methods):
             if r.random() < 0.45:
                 bare[str(oc)] = [r.choice([1, 2, 3]), r.choice(ACTION_KINDS), r.randrange(100)]
     clear = [r.choice(ACTION_KINDS), r.randrange(100)] if r.random() < 0.6 else None
-    return {"methods": methods, "bare": bare, "clear": clear, "bare_object": r.random() < 0.8}
+    share = False
+    if len(bare) >= 2 and r.random() < 0.4:
+        # the same action (one Python object when `share_actions`) under several OnCompletion values, call configs of their own
+        share = r.random() < 0.8
+        ks = sorted(bare)
+        src = bare[ks[0]]
+        for k2 in ks[1:]:
+            if r.random() < 0.7:
+                bare[k2] = [bare[k2][0], src[1], src[2]]
+    return {"methods": methods, "bare": bare, "clear": clear, "bare_object": r.random() < 0.8, "share_actions": share}
 
 
 def find_collision():
